@@ -34,14 +34,20 @@ LEVEL_TEXT = (
     "returns unchanged; (b) raw trees assembled bottom-up with the public dataclass constructors over bare leaves (no "
     "Select anywhere) are conformed, compiled, run on SQLite and compared with direct evaluation; (c) every Select "
     "marker of every conformed tree is walked: target -> [slice] [deduplication] [projection] [sort] -> skip_to, and "
-    "is_compound <=> skip_to is a chain.  Programs are sampled (<= 8 / 12 operations); plus the exhaustive SELECT-rule matrix."
+    "is_compound <=> skip_to is a chain; (d) factory methods (the documented no-ops and real operations) applied to the "
+    "unconformed raw tree must return conformed Selects with the right rows; (e) one engine conforms a series of "
+    "short-lived raw trees whose operation objects are kept while the trees are dropped; (f) multi-engine bases with a "
+    "final operation under every preferred-engine option: whatever lands in the SQL engine is a conformed Select.  "
+    "Programs are sampled (<= 8 / 12 operations); plus the exhaustive SELECT-rule matrix."
 )
 LEVEL_NOTE = "trusts: ev_bag labels; raw trees are well-formed by construction (columns from applied_columns, resolved join columns); P4, P8"
 RULE = (
     "case = SQL program (generator of C02) built twice: through the factories and as a raw tree from dataclass "
     "constructors.  Oracles: conform(r) is r and isinstance(r, Select) for factory relations (root and prefixes); "
     "conform(raw) raises the row-order-loss error or returns a Select with conform(result) is result whose SQLite rows "
-    "compare equal to ev_bag; every Select marker is structurally coherent.  Non-trivial: >= 2 Select levels in the "
+    "compare equal to ev_bag; every Select marker is structurally coherent; factory calls on the raw tree return Selects "
+    "(conform-idempotent, rows equal to ev_bag of the extended program); results of optioned requests that live in the "
+    "SQL engine are Selects.  Non-trivial: >= 2 Select levels in the "
     "factory tree or a raw tree with >= 3 operations; distinct by case digest."
 )
 ASSUMPTIONS = ["P4, P8", "raw trees only use Calculation, Projection, Selection, Deduplication, Sort, Slice, Chain, Join over LeafRelation"]
